@@ -760,4 +760,345 @@ theorem parser_safe (O : Oracle) (fuel : Nat) :
       simp only [Safe, ListPost]
       exact ⟨by omega, hqs⟩
 
+/-! ### stripCaseScopes and Simplify -/
+
+mutual
+theorem clean_strip : ∀ q, cleanS q = true → clean (stripCaseScopes q) = true
+  | .and cs, h => by simp only [stripCaseScopes, clean]; exact cleanList_strip cs (by simpa [cleanS] using h)
+  | .or cs, h => by simp only [stripCaseScopes, clean]; exact cleanList_strip cs (by simpa [cleanS] using h)
+  | .not c, h => by simp only [stripCaseScopes, clean]; exact clean_strip c (by simpa [cleanS] using h)
+  | .type t c, h => by simp only [stripCaseScopes, clean]; exact clean_strip c (by simpa [cleanS] using h)
+  | .caseScope c, h => by simp only [stripCaseScopes]; exact clean_strip c (by simpa [cleanS] using h)
+  | .sym e, h => by simpa [stripCaseScopes, clean, cleanS] using h
+  | .nil, h => by simp [cleanS] at h
+  | .caseQ _, h => by simp [cleanS] at h
+  | .orOp, h => by simp [cleanS] at h
+  | .const _, _ => by simp [stripCaseScopes, clean]
+  | .substr .., _ => by simp [stripCaseScopes, clean]
+  | .regexp .., _ => by simp [stripCaseScopes, clean]
+  | .repo _, _ => by simp [stripCaseScopes, clean]
+  | .rawConfig _, _ => by simp [stripCaseScopes, clean]
+  | .branch _, _ => by simp [stripCaseScopes, clean]
+  | .lang _, _ => by simp [stripCaseScopes, clean]
+  | .metaQ .., _ => by simp [stripCaseScopes, clean]
+theorem cleanList_strip : ∀ qs, cleanSList qs = true → cleanList (stripCaseScopesList qs) = true
+  | [], _ => by simp [stripCaseScopesList, cleanList]
+  | q :: qs, h => by
+    simp only [cleanSList, Bool.and_eq_true] at h
+    simp only [stripCaseScopesList, cleanList, Bool.and_eq_true]
+    exact ⟨clean_strip q h.1, cleanList_strip qs h.2⟩
+end
+
+theorem clean_const (v : Bool) : clean (.const v) = true := by simp [clean]
+
+theorem foldConsts_clean (isAnd : Bool) : ∀ (cs acc : List Q), (∀ q ∈ cs, clean q = true) → (∀ q ∈ acc, clean q = true) →
+    (∀ c, (foldConsts isAnd cs acc).1 = some c → clean c = true) ∧ (∀ q ∈ (foldConsts isAnd cs acc).2, clean q = true)
+  | [], acc, _, ha => by simp [foldConsts]; exact ha
+  | ch :: rest, acc, hc, ha => by
+    have hrest : ∀ q ∈ rest, clean q = true := fun q hq => hc q (by simp [hq])
+    unfold foldConsts
+    split
+    · split
+      · exact foldConsts_clean isAnd rest acc hrest ha
+      · simp only
+        exact ⟨fun c hc' => by cases hc'; exact hc ch (by simp), ha⟩
+    · refine foldConsts_clean isAnd rest (acc ++ [ch]) hrest ?_
+      intro q hq
+      simp only [List.mem_append, List.mem_singleton] at hq
+      rcases hq with hq | rfl
+      · exact ha q hq
+      · exact hc q (by simp)
+
+theorem evalAndOr_clean (isAnd : Bool) (cs : List Q) (h : ∀ q ∈ cs, clean q = true) : clean (evalAndOr isAnd cs) = true := by
+  unfold evalAndOr
+  have := foldConsts_clean isAnd cs [] h (by simp)
+  split
+  · rename_i c _ heq
+    exact this.1 c (by rw [heq])
+  · rename_i newCH heq
+    have h2 : ∀ q ∈ newCH, clean q = true := by
+      have := this.2; rw [heq] at this; exact this
+    split
+    · simp [clean]
+    · split <;> (simp only [clean]; exact (cleanList_iff _).mpr h2)
+
+mutual
+theorem clean_evalConstants : ∀ q, clean q = true → clean (evalConstants q) = true
+  | .and cs, h => by
+    simp only [evalConstants]
+    exact evalAndOr_clean _ _ ((cleanList_iff _).mp (cleanList_evalConstants cs (by simpa [clean] using h)))
+  | .or cs, h => by
+    simp only [evalConstants]
+    exact evalAndOr_clean _ _ ((cleanList_iff _).mp (cleanList_evalConstants cs (by simpa [clean] using h)))
+  | .not c, h => by
+    have ih := clean_evalConstants c (by simpa [clean] using h)
+    simp only [evalConstants]
+    split
+    · simp [clean]
+    · simpa [clean] using ih
+  | .type t c, h => by
+    have ih := clean_evalConstants c (by simpa [clean] using h)
+    simp only [evalConstants]
+    split
+    · simp [clean]
+    · simpa [clean] using ih
+  | .substr .., _ => by simp only [evalConstants]; split <;> simp [clean]
+  | .regexp .., _ => by simp only [evalConstants]; split <;> simp [clean]
+  | .branch _, _ => by simp only [evalConstants]; split <;> simp [clean]
+  | .sym e, h => by simpa [evalConstants] using h
+  | .nil, h => by simp [clean] at h
+  | .caseQ _, h => by simp [clean] at h
+  | .orOp, h => by simp [clean] at h
+  | .caseScope _, h => by simp [clean] at h
+  | .const _, _ => by simp [evalConstants, clean]
+  | .repo _, _ => by simp [evalConstants, clean]
+  | .rawConfig _, _ => by simp [evalConstants, clean]
+  | .lang _, _ => by simp [evalConstants, clean]
+  | .metaQ .., _ => by simp [evalConstants, clean]
+theorem cleanList_evalConstants : ∀ qs, cleanList qs = true → cleanList (evalConstantsList qs) = true
+  | [], _ => by simp [evalConstantsList, cleanList]
+  | q :: qs, h => by
+    simp only [cleanList, Bool.and_eq_true] at h
+    simp only [evalConstantsList, cleanList, Bool.and_eq_true]
+    exact ⟨clean_evalConstants q h.1, cleanList_evalConstants qs h.2⟩
+end
+
+theorem childrenIf_some {isAnd : Bool} {q : Q} {sub : List Q} (h : childrenIf isAnd q = some sub) :
+    q.size = 1 + sizeList sub ∧ (clean q = true → cleanList sub = true) := by
+  cases q <;> simp only [childrenIf] at h
+  case and cs =>
+    split at h
+    · cases h; simp [Q.size, clean]
+    · cases h
+  case or cs =>
+    split at h
+    · cases h
+    · cases h; simp [Q.size, clean]
+  all_goals cases h
+
+theorem sizeList_append (a b : List Q) : sizeList (a ++ b) = sizeList a + sizeList b := by
+  induction a with
+  | nil => simp [sizeList]
+  | cons q a ih => simp [sizeList, ih]; omega
+
+theorem cleanList_append (a b : List Q) : cleanList (a ++ b) = (cleanList a && cleanList b) := by
+  induction a with
+  | nil => simp [cleanList]
+  | cons q a ih => simp [cleanList, ih, Bool.and_assoc]
+
+mutual
+theorem flatten_spec : ∀ q, ((flatten q).1.size ≤ q.size ∧ ((flatten q).2 = true → (flatten q).1.size < q.size)) ∧
+    (clean q = true → clean (flatten q).1 = true)
+  | .and cs => by
+    have ih := flattenAndOr_spec true cs
+    unfold flatten
+    split
+    · rename_i c
+      simp [Q.size, sizeList, clean, cleanList]
+    · simp only [Q.size, clean]
+      exact ⟨⟨by omega, fun h => by have := ih.1.2 h; omega⟩, ih.2⟩
+  | .or cs => by
+    have ih := flattenAndOr_spec false cs
+    unfold flatten
+    split
+    · rename_i c
+      simp [Q.size, sizeList, clean, cleanList]
+    · simp only [Q.size, clean]
+      exact ⟨⟨by omega, fun h => by have := ih.1.2 h; omega⟩, ih.2⟩
+  | .not c => by
+    have ih := flatten_spec c
+    simp only [flatten, Q.size, clean]
+    exact ⟨⟨by omega, fun h => by have := ih.1.2 h; omega⟩, ih.2⟩
+  | .type t c => by
+    have ih := flatten_spec c
+    simp only [flatten, Q.size, clean]
+    exact ⟨⟨by omega, fun h => by have := ih.1.2 h; omega⟩, ih.2⟩
+  | .nil => by simp [flatten]
+  | .const _ => by simp [flatten]
+  | .substr .. => by simp [flatten]
+  | .regexp .. => by simp [flatten]
+  | .repo _ => by simp [flatten]
+  | .rawConfig _ => by simp [flatten]
+  | .branch _ => by simp [flatten]
+  | .lang _ => by simp [flatten]
+  | .sym _ => by simp [flatten]
+  | .metaQ .. => by simp [flatten]
+  | .caseQ _ => by simp [flatten]
+  | .orOp => by simp [flatten]
+  | .caseScope _ => by simp [flatten]
+theorem flattenAndOr_spec (isAnd : Bool) : ∀ cs,
+    (sizeList (flattenAndOr isAnd cs).1 ≤ sizeList cs ∧
+      ((flattenAndOr isAnd cs).2 = true → sizeList (flattenAndOr isAnd cs).1 < sizeList cs)) ∧
+    (cleanList cs = true → cleanList (flattenAndOr isAnd cs).1 = true)
+  | [] => by simp [flattenAndOr, sizeList]
+  | ch :: rest => by
+    have ih1 := flatten_spec ch
+    have ih2 := flattenAndOr_spec isAnd rest
+    unfold flattenAndOr
+    simp only
+    split
+    · rename_i sub hsub
+      have hs := childrenIf_some hsub
+      simp only [sizeList_append, sizeList, cleanList_append, cleanList, Bool.and_eq_true]
+      refine ⟨⟨by omega, fun _ => by omega⟩, ?_⟩
+      intro ⟨hc1, hc2⟩
+      exact ⟨hs.2 (ih1.2 hc1), ih2.2 hc2⟩
+    · simp only [sizeList, cleanList, Bool.and_eq_true, Bool.or_eq_true]
+      refine ⟨⟨by omega, ?_⟩, ?_⟩
+      · intro h
+        rcases h with h | h
+        · have := ih1.1.2 h; omega
+        · have := ih2.1.2 h; omega
+      · intro ⟨hc1, hc2⟩
+        exact ⟨ih1.2 hc1, ih2.2 hc2⟩
+end
+
+theorem flattenLoop_safe : ∀ (fuel : Nat) (q : Q), q.size < fuel → clean q = true →
+    Safe (flattenLoop fuel q) (fun r => clean r = true)
+  | 0, _, h, _ => by omega
+  | fuel + 1, q, h, hc => by
+    have hs := flatten_spec q
+    unfold flattenLoop
+    simp only
+    split
+    · rename_i hch
+      exact flattenLoop_safe fuel _ (by have := hs.1.2 hch; omega) (hs.2 hc)
+    · exact Safe.ok (hs.2 hc)
+
+theorem simplify_safe (q : Q) (h : clean q = true) : Safe (simplify q) (fun r => clean r = true) := by
+  unfold simplify
+  exact flattenLoop_safe _ _ (by omega) (clean_evalConstants q h)
+
+/-- **Parse is total and its result is well-shaped** -/
+theorem parse_safe (O : Oracle) (s : B) : Safe (parse O s) (fun q => clean q = true) := by
+  unfold parse
+  refine ((parser_safe O (parseFuel s)).2.2 s (by simp [parseFuel])).bind ?_
+  intro r ⟨hr1, hr2⟩
+  split
+  · refine (sliceFrom_safe _ _ _ hr1).bind ?_
+    intro _ _
+    exact Safe.err
+  · refine (parseOperators_safe r.1 hr2).bind ?_
+    intro q hq
+    exact simplify_safe _ (clean_strip q hq)
+
+/-! ### consumers of a well-shaped tree -/
+
+theorem kind_of_atom {q : Q} (h : isTextAtom q = true) : q.kind = "Substring" ∨ q.kind = "Regexp" := by
+  cases q <;> simp_all [isTextAtom, Q.kind]
+
+theorem leafOk_safe {cases : List String} {k w : String} (h : cases.contains k = true) :
+    Safe (leafOk cases k w) (fun _ => True) := by
+  unfold leafOk; rw [if_pos h]; trivial
+
+theorem leafOk_ok {cases : List String} {k w : String} (h : cases.contains k = true) : leafOk cases k w = .ok () := by
+  unfold leafOk; rw [if_pos h]
+
+mutual
+theorem toProto_clean : ∀ q, clean q = true → toProto toProtoCases q = .ok ()
+  | .and cs, h => by
+    simp only [toProto]
+    rw [if_pos (by decide)]
+    exact toProtoList_clean cs (by simpa [clean] using h)
+  | .or cs, h => by
+    simp only [toProto]
+    rw [if_pos (by decide)]
+    exact toProtoList_clean cs (by simpa [clean] using h)
+  | .not c, h => by
+    simp only [toProto]
+    rw [if_pos (by decide)]
+    exact toProto_clean c (by simpa [clean] using h)
+  | .type t c, h => by
+    simp only [toProto]
+    rw [if_pos (by decide)]
+    exact toProto_clean c (by simpa [clean] using h)
+  | .sym e, h => by
+    have hS : toProtoCases.contains "Symbol" = true := by decide
+    have : isTextAtom e = true := by simpa [clean] using h
+    cases e
+    case substr =>
+      simp only [toProto, hS, if_true]
+      exact leafOk_ok (show toProtoCases.contains "Substring" = true by decide)
+    case regexp =>
+      simp only [toProto, hS, if_true]
+      exact leafOk_ok (show toProtoCases.contains "Regexp" = true by decide)
+    all_goals simp [isTextAtom] at this
+  | .nil, h => by simp [clean] at h
+  | .caseQ _, h => by simp [clean] at h
+  | .orOp, h => by simp [clean] at h
+  | .caseScope _, h => by simp [clean] at h
+  | .const _, _ => by unfold toProto; exact leafOk_ok (show toProtoCases.contains "Const" = true by decide)
+  | .substr .., _ => by unfold toProto; exact leafOk_ok (show toProtoCases.contains "Substring" = true by decide)
+  | .regexp .., _ => by unfold toProto; exact leafOk_ok (show toProtoCases.contains "Regexp" = true by decide)
+  | .repo _, _ => by unfold toProto; exact leafOk_ok (show toProtoCases.contains "Repo" = true by decide)
+  | .rawConfig _, _ => by unfold toProto; exact leafOk_ok (show toProtoCases.contains "RawConfig" = true by decide)
+  | .branch _, _ => by unfold toProto; exact leafOk_ok (show toProtoCases.contains "Branch" = true by decide)
+  | .lang _, _ => by unfold toProto; exact leafOk_ok (show toProtoCases.contains "Language" = true by decide)
+  | .metaQ .., _ => by unfold toProto; exact leafOk_ok (show toProtoCases.contains "Meta" = true by decide)
+theorem toProtoList_clean : ∀ qs, cleanList qs = true → toProtoList toProtoCases qs = .ok ()
+  | [], _ => by simp [toProtoList]
+  | q :: qs, h => by
+    simp only [cleanList, Bool.and_eq_true] at h
+    simp only [toProtoList]
+    rw [toProto_clean q h.1]
+    exact toProtoList_clean qs h.2
+end
+
+mutual
+theorem matchTree_clean : ∀ q, clean q = true →
+    Safe (matchTree newMatchTreeCases newMatchTreeTypeArms q) (fun _ => True)
+  | .and cs, h => by
+    simp only [matchTree]
+    rw [if_pos (show newMatchTreeCases.contains "And" = true by decide)]
+    exact matchTreeList_clean cs (by simpa [clean] using h)
+  | .or cs, h => by
+    simp only [matchTree]
+    rw [if_pos (show newMatchTreeCases.contains "Or" = true by decide)]
+    exact matchTreeList_clean cs (by simpa [clean] using h)
+  | .not c, h => by
+    simp only [matchTree]
+    rw [if_pos (show newMatchTreeCases.contains "Not" = true by decide)]
+    exact matchTree_clean c (by simpa [clean] using h)
+  | .type t c, h => by
+    simp only [matchTree]
+    rw [if_pos (show newMatchTreeCases.contains "Type" = true by decide)]
+    split
+    · exact matchTree_clean c (by simpa [clean] using h)
+    · exact Safe.err
+  | .sym e, h => by
+    have hS : newMatchTreeCases.contains "Symbol" = true := by decide
+    have : isTextAtom e = true := by simpa [clean] using h
+    cases e
+    case substr =>
+      simp only [matchTree, hS, if_true]
+      exact leafOk_safe (show newMatchTreeCases.contains "Substring" = true by decide)
+    case regexp =>
+      simp only [matchTree, hS, if_true]
+      exact leafOk_safe (show newMatchTreeCases.contains "Regexp" = true by decide)
+    all_goals simp [isTextAtom] at this
+  | .nil, h => by simp [clean] at h
+  | .caseQ _, h => by simp [clean] at h
+  | .orOp, h => by simp [clean] at h
+  | .caseScope _, h => by simp [clean] at h
+  | .const _, _ => by unfold matchTree; exact leafOk_safe (show newMatchTreeCases.contains "Const" = true by decide)
+  | .substr .., _ => by unfold matchTree; exact leafOk_safe (show newMatchTreeCases.contains "Substring" = true by decide)
+  | .regexp .., _ => by unfold matchTree; exact leafOk_safe (show newMatchTreeCases.contains "Regexp" = true by decide)
+  | .repo _, _ => by unfold matchTree; exact leafOk_safe (show newMatchTreeCases.contains "Repo" = true by decide)
+  | .rawConfig _, _ => by unfold matchTree; exact leafOk_safe (show newMatchTreeCases.contains "RawConfig" = true by decide)
+  | .branch _, _ => by unfold matchTree; exact leafOk_safe (show newMatchTreeCases.contains "Branch" = true by decide)
+  | .lang _, _ => by unfold matchTree; exact leafOk_safe (show newMatchTreeCases.contains "Language" = true by decide)
+  | .metaQ .., _ => by unfold matchTree; exact leafOk_safe (show newMatchTreeCases.contains "Meta" = true by decide)
+theorem matchTreeList_clean : ∀ qs, cleanList qs = true →
+    Safe (matchTreeList newMatchTreeCases newMatchTreeTypeArms qs) (fun _ => True)
+  | [], _ => by simp [matchTreeList, Safe]
+  | q :: qs, h => by
+    simp only [cleanList, Bool.and_eq_true] at h
+    have h1 := matchTree_clean q h.1
+    have h2 := matchTreeList_clean qs h.2
+    simp only [matchTreeList]
+    split
+    · exact h2
+    · exact h1
+end
+
 end ZoektModel.C07
